@@ -1215,6 +1215,68 @@ def r06z(ctx, rep):
     rep.floor("R06z", "division call sites outside number.rs", n, 6)
 
 
+HASHING_METHODS = re.compile(r"::(insert|contains|get|remove|extend|from_iter|entry|contains_key|replace|take|get_or_insert_with)(::<.*>)?$")
+
+
+def r06t(ctx, rep, rule="R06t"):
+    """premise of the reviewed panic in <Number as Hash>::hash: only symbols are hashed"""
+    from .. import shapes
+    facts = ctx["facts"]
+    rep.rule(rule, "only symbols are hashed: <Number as Hash>::hash panics for a float and Cell's Hash reaches it through "
+             "numbers, lists and vectors, so every hashing operation (insert / contains / get / extend / collect) on a "
+             "collection keyed by Cell must receive a key that a dominating is_symbol test (or Symbol match arm) has "
+             "established to be a symbol. This is the premise under which the may-panic site in Number::hash is accepted; "
+             "a bulk insertion (extend / collect) carries no per-element test and is refused.")
+    n = 0
+    sym_idx = variant_index(facts.adts.get("marwood::cell::Cell", {"variants": []}), "Symbol")
+    for p, f in sorted(facts.fns.items()):
+        if not p.startswith("marwood::") or f.impl_trait in DERIVE_TRAITS:
+            continue
+        seen = 0
+        for bb, t in f.calls():
+            fa = t.get("fnargs") or ""
+            if not re.search(r"Hash(Set|Map)<&?(marwood::cell::)?Cell\b|Hash(Set|Map)::<&?(marwood::cell::)?Cell\b", fa.replace("marwood::cell::Cell", "Cell")):
+                continue
+            m = HASHING_METHODS.search(fa.split("::<")[0] if False else fa)
+            if not m:
+                continue
+            meth = m.group(1)
+            n += 1
+            seen += 1
+            key = "%s|%s|%s#%d" % (rule, f.short, meth, seen)
+            loc = [t.get("loc") or f.span]
+            if meth in ("extend", "from_iter"):
+                src = shapes.shape(f, t["args"][-1], 8) if t["args"] else ""
+                filt = "Iterator::filter(" in src and any(
+                    any(callee(t2) == "marwood::cell::Cell::is_symbol" for b2, t2 in c.calls()) for c in facts.closures_of(f))
+                if filt:
+                    rep.ok(rule, key, "%s: the sequence handed to %s is filtered by is_symbol" % (f.short, meth), loc)
+                    continue
+                rep.fail(rule, key, "%s hashes a whole sequence of cells at once (%s): nothing establishes that each element is a "
+                         "symbol, and hashing a cell that contains an inexact number panics in <Number as Hash>::hash — e.g. a "
+                         "float among the formals of an inner define" % (f.short, meth), loc)
+                continue
+            if len(t["args"]) < 2:
+                rep.ok(rule, key, "%s: %s takes no key" % (f.short, meth), loc, nontrivial=False)
+                continue
+            ksh = shapes.shape(f, t["args"][1], 7)
+            ok = False
+            for sbb, cond, taken, tt in shapes.dominating_guards(f, bb):
+                sh = shapes.shape(f, cond, 8)
+                if sh == "cell::Cell::is_symbol(%s)" % ksh and taken == "else":
+                    ok = True
+                if sh == "disc(%s)" % ksh and taken == sym_idx:
+                    o = f.origin(cond)
+                    if o[0] == "rv" and "Cell" in o[1]["rv"].get("place", {}).get("ty", ""):
+                        ok = True
+            if ok:
+                rep.ok(rule, key, "%s: the key of %s is a symbol (dominating is_symbol / Symbol arm on the same value)" % (f.short, meth), loc)
+            else:
+                rep.fail(rule, key, "%s passes a cell to %s without a dominating symbol test on it: a number, list or vector there "
+                         "is hashed, and an inexact number inside it panics in <Number as Hash>::hash" % (f.short, meth), loc)
+    rep.floor(rule, "hashing operations on Cell-keyed collections", n, 7)
+
+
 def run(ctx, rep):
     from . import numeric, tables, runloop
     r06a(ctx, rep)
@@ -1223,6 +1285,7 @@ def run(ctx, rep):
     r06f(ctx, rep)
     r06g(ctx, rep)
     r06q(ctx, rep)
+    r06t(ctx, rep)
     # R06n: the arithmetic arms of number.rs, arm by arm (same rule as C08's R08a)
     sub = type(rep)(rep.prop)
     numeric.r08a(ctx, sub)
